@@ -200,7 +200,7 @@ structure Params where
   stampRuns : Bool := true
   /-- D18 repair: a `rerun` record is written before a function target's body runs -/
   marker : Bool := true
-  /-- D28 repair: a record that lists more dependencies than the target has now is out of date -/
+  /-- D29 repair: a record that lists more dependencies than the target has now is out of date -/
   depCount : Bool := true
 
 /-- `fileSum`: a missing file has the empty sum -/
@@ -297,7 +297,7 @@ def plan (P : Params) (t : Tree) (o : Opts) (s : BSt) (l : Label) (d : Def) : Pl
       match info.deps.lookup x, s.memo x with
       | some st, some m => !m.changed && st == m.data
       | _, _ => false) &&
-      -- D28 repair: a dependency the target no longer has is a change as well (every present dependency is listed, so
+      -- D29 repair: a dependency the target no longer has is a change as well (every present dependency is listed, so
       -- the record lists a former one exactly if it lists more than there are now)
       (!P.depCount || info.deps.length == deps.length)
     if !o.always && depsUpToDate && upToDate P s.w d info && !info.rerun then .skip info
